@@ -78,7 +78,7 @@ func VerifC13_Methods() {
 // stripped names under the prefix that sort after the start point.
 func VerifC13_Listing() {
 	// backend contents: a sorted subset of a menu with siblings sharing a textual prefix
-	menu := []string{"o/z", "p", "p/a", "p/b", "p/b/c", "pa", "pb/x", "q"}
+	menu := []string{"o/z", "p", "p-x/y", "p.y", "p/a", "p/b", "p/b/c", "pa", "q"}
 	var have []string
 	for _, nm := range menu {
 		if verifBool("has") {
